@@ -25,6 +25,18 @@ fn engine(id: &str, tier: &str, replay: Option<&serde_json::Value>) -> Option<gv
         ("C08", Some(v)) => c08::replay(v),
         ("C09", None) => c09::run(tier),
         ("C09", Some(v)) => c09::replay(v),
+        ("C10", None) => c10::run(tier),
+        ("C10", Some(v)) => c10::replay(v),
+        ("C06", None) => c06::run(tier),
+        ("C06", Some(v)) => c06::replay(v),
+        ("C03", None) => c03::run(tier),
+        ("C03", Some(v)) => c03::replay(v),
+        ("C20", None) => c20::run(tier),
+        ("C20", Some(v)) => c20::replay(v),
+        ("C15", None) => c15::run(tier),
+        ("C15", Some(v)) => c15::replay(v),
+        ("C13", None) => c13::run(tier),
+        ("C13", Some(v)) => c13::replay(v),
         ("C05", None) => c05::run(tier),
         ("C05", Some(v)) => c05::replay(v),
         ("C04", None) => c04::run(tier),
@@ -62,6 +74,12 @@ fn main() {
         record_panics();
         match args.get(2).map(|s| s.as_str()) {
             Some("c05") => gv::isolate::worker_loop(gv::engines::c05::worker),
+            Some("c13") => gv::isolate::worker_loop(gv::engines::c13::worker),
+            Some("c03") => gv::isolate::worker_loop(gv::engines::c03::worker),
+            Some("c06") => gv::engines::c06::worker_main(),
+            Some("c10") => gv::isolate::worker_loop(gv::engines::c10::worker),
+            Some("c20") => gv::engines::c20::worker_main(),
+            Some("c15") => gv::isolate::worker_loop(gv::engines::c15::worker),
             Some("c12") => gv::isolate::worker_loop(gv::engines::c12::worker),
             Some("c16") => gv::isolate::worker_loop(gv::engines::c16::worker),
             Some("c17") => gv::isolate::worker_loop(gv::engines::c17::worker),
